@@ -565,7 +565,7 @@ func init() {
 		Real:        []string{"consensus/vbft buildParticipantConfig, calcParticipantPeers, calcParticipant, getParticipantSelectionSeed (through export_verif.go)", "consensus/vbft/config GenesisChainConfig (pos table, shuffle), ChainConfig JSON codec", "vbft.Block Serialize/Deserialize", "core/genesis + ledger for runs that take seeds and the configuration from a real chain"},
 		Stub:        []string{"governance pool contents are synthesised (peer lists with increasing, possibly sparse indices in arbitrary order, as GetPeersConfig returns them from a Go map); the VBFT Server is not run"},
 		Assumptions: []string{"C is taken from the configuration under test: GenesisChainConfig sets C = N/3 (not floor((N-1)/3)); both are exercised", "seeds reachable through getParticipantSelectionSeed are SHA-512 outputs; structured raw seeds are evaluated through calcParticipantPeers directly and a raw seed without any selection is counted, not alarmed", "'exclude the leading proposers' is read as: the first C of the C+1 proposers do not reappear among endorsers or committers"},
-		QuickRuns:   6000, ThoroughRuns: 400000, QuickCap: 45, ThoroughCap: 700,
+		QuickRuns:   6000, ThoroughRuns: 400000, QuickCap: 40, ThoroughCap: 700,
 		RequiredProbes: []string{"seed_from_real_sealed_block", "seed_from_plan_vrf_bytes", "raw_seed_selection", "config_from_real_genesis_block", "peer_removed", "peer_added", "indices_non_contiguous", "peer_list_permuted"},
 		Generate:       genC40, Execute: execC40,
 	})
